@@ -23,6 +23,10 @@
   `Process` (popen / pclose, the second Stream class of src/File.c; Process_Close repaired by 51c301c): last section —
   the same wrapper model (C20_process_same_wrappers), constructor `procNew` / `MOp.pnew`, reference pipe library `pipeIO`.
   The collector as the third closer (GC_Sweep → File_Del) is `MOp.del` in the model; it is run on the library by the op `drop`.
+  Text, conversion by conversion (last section, namespace Cello.FileText; model Cello/FileText.lean, lemmas Lemmas/FileText.lean):
+  what `scan_from_with` does with what a conversion of vfscanf stored — the chain of tests on `fmt_buf`, the object scanf stores
+  into, the expression that becomes the Int — is read from src/Show.c as a term on every run (CelloGen/FileScan.lean) and the
+  round trip print_to → scan_from is proved over it for every integer specification and every value of its type.
 
   Reading guide.  A File object is `Option Handle` (`none` = `f->file` is NULL).  Every wrapper returns the stdio calls
   it made.  `track cur log = some cur'` says: following `log` from an object holding `cur`, every successful fopen
@@ -34,7 +38,9 @@
 import CelloProofs.Lemmas.FileTrack
 import CelloProofs.Lemmas.FileWith
 import CelloProofs.Lemmas.FileGlobal
+import CelloProofs.Lemmas.FileText
 import CelloGen.File
+import CelloGen.FileScan
 
 namespace Cello.File
 
@@ -1053,3 +1059,160 @@ theorem C20_process_close_repaired :
   decide
 
 end Cello.File
+
+/-! ## Text written with print_to is read back identical with scan_from: every conversion, every length modifier
+
+  `print_to(f, 0, "%<spec>", x)` hands `c_int(x)` / `c_float(x)` / `c_str(x)` to vfprintf with the specification as it stands;
+  `scan_from(f, 0, "%<spec>", x)` has vfscanf store into an object chosen by a chain of tests on the specification and turns that
+  object into the Int by an expression of casts (src/Show.c `scan_from_with`).  Both are taken from the source on every run
+  (CelloGen/FileScan.lean: `intArms` with the expression as a term, `intSigned`, `tmpTy`, `charTy`, `charFin`, the floating arms,
+  the pinned texts of the other branches, the formats of src/Num.c); libc's two conversions are the executable models of
+  Cello/Text.lean (validated against glibc on every run by the twin-file oracle of harness/h_file.c: libc's own fscanf of the
+  same bytes into the C type the specification names). -/
+namespace Cello.FileText
+
+open Cello.Text (IMod IConv FConv sext zext convInt intInWidth inInt64 printIntSpec ispecSafe)
+open Cello.File (Ref Handle At Regular Mode)
+
+/-- the branches of `scan_from_with` / `print_to_with` that are modelled as written (literal runs; the head of the specification
+    branch with the `%$` dispatch to `look_from`; `%s`; which argument each conversion of print_to_with hands to `format_to`) have
+    the text the model was written against; `tmp` is a `long`; Int and Float show and look through one print_to / scan_from with
+    `%li`, `%li`, `%f`, `%lf` -/
+theorem C20_text_source_shape :
+    CelloGen.FileScan.scanLitBranch = CelloGen.FileScan.scanLitBranchModelled ∧
+    CelloGen.FileScan.scanSpecHead = CelloGen.FileScan.scanSpecHeadModelled ∧
+    CelloGen.FileScan.scanStrBranch = CelloGen.FileScan.scanStrBranchModelled ∧
+    CelloGen.FileScan.printBranches = CelloGen.FileScan.printBranchesModelled ∧
+    CelloGen.FileScan.tmpTy = ⟨true, 64⟩ ∧
+    CelloGen.FileScan.intConvs = [100, 105, 111, 117, 120, 88] ∧
+    CelloGen.FileScan.floatConvs = [102, 70, 101, 69, 103, 71, 97, 65] ∧
+    CelloGen.FileScan.numShowInstances = true ∧
+    intShowSpec = some (.int .l .i) ∧ intLookSpec = some (.int .l .i) ∧
+    floatShowSpec = some (.flt false .f) ∧ floatLookSpec = some (.flt true .f) :=
+  by refine ⟨rfl, rfl, rfl, rfl, rfl, rfl, rfl, rfl, by decide, by decide, by decide, by decide⟩
+
+/-- **the chain of tests, decided on the arms extracted from the source**: each of the 54 specifications
+    `%[hh|h|l|ll|j|z|t|q][d|i|o|u|x|X]` reaches an arm whose object has exactly the width libc stores for that modifier, and `sgn`
+    is true exactly for `d` and `i` -/
+theorem C20_scan_int_arms_select : armsSelect src = true := by decide
+
+/-- **every arm converts — decided on the arms' expressions as the source has them** (the narrowing / widening of
+    `scan_from_with`): the verified interval evaluator `armOK` (Lemmas/FileText.lean) follows each arm's path — pattern → the object
+    scanf stores into → the expression assigned to `tmp`, with C's integer promotions and usual arithmetic conversions → `tmp` →
+    `$I` — on both halves of the pattern space and for both values of `sgn`, and compares with C's conversion to the type the
+    specification names.  An arm that sign-extends an unsigned conversion (`tmp = t;`), zero-extends a signed one, or goes through
+    a narrower type makes this theorem fail. -/
+theorem C20_scan_int_arms_ok : src.arms.all (armOK src) = true := by decide +kernel
+
+/-- … hence, **for every bit pattern** libc may have stored into the arm's object, the Int delivered is that pattern read as a
+    signed number of the object's width under `d` / `i` and as an unsigned number under `o u x X` (a 64-bit pattern: the `int64_t`
+    with those bits) -/
+theorem C20_scan_int_arms_convert : ∀ arm ∈ src.arms, ArmConverts src arm :=
+  fun arm h => armOK_sound src arm (List.all_eq_true.mp C20_scan_int_arms_ok arm h)
+
+/-- the floating branch reads a `double` exactly when the specification has the `l` modifier, a `float` otherwise -/
+theorem C20_scan_float_arm : ∀ (l : Bool) (cv : FConv), floatNarrow src l cv = !l := by
+  intro l cv; cases l <;> cases cv <;> decide
+
+/-- **C20, text of integers: what is read back is C's conversion of what was written.**  For each length modifier, each of
+    `d i o u x X`, every `int64_t` `n` and every following text that does not continue the number: the integer branch of
+    `scan_from_with` — as the source has it now — applied to what printf wrote for `n` under `%<m><cv>`, followed by that text,
+    delivers `convInt m cv n` (sign extension of the low 8 / 16 / 32 bits under `d i`, the low bits as an unsigned number under
+    `o u x X`, the value itself for the 64-bit modifiers) and leaves exactly that text unread. -/
+theorem C20_text_int_conversion (m : IMod) (cv : IConv) (n : Int) (hn : inInt64 n = true) (rest : List Nat)
+    (hs : ispecSafe m cv n rest = true) :
+    scanIntSpec src m cv (printIntSpec m cv n ++ rest) = .ok (convInt m cv n, rest) :=
+  scanIntSpec_print src C20_scan_int_arms_select C20_scan_int_arms_convert m cv n hn rest hs
+
+/-- **C20, text of integers: the round trip.**  For every value of the type the specification names — [-2^(w-1), 2^(w-1)) under
+    `d i`, [0, 2^w) under `o u x X`, w = 8 (`hh`), 16 (`h`), 32 (no modifier); every `int64_t` for `l ll j z t q` — what
+    `print_to` wrote is read back by `scan_from` as the same value.  In particular `%u %x %X %o` of 2^31 … 2^32−1. -/
+theorem C20_text_int_roundtrip (m : IMod) (cv : IConv) (n : Int) (hw : intInWidth m cv n = true) (rest : List Nat)
+    (hs : ispecSafe m cv n rest = true) :
+    scanIntSpec src m cv (printIntSpec m cv n ++ rest) = .ok (n, rest) := by
+  have hn : inInt64 n = true := by
+    have hc := Text.width_cases m
+    unfold intInWidth at hw
+    simp only [inInt64, Bool.and_eq_true, decide_eq_true_eq] at hw ⊢
+    generalize m.width = w at *
+    generalize cv.signed = sg at *
+    rcases hc with h | h | h | h <;> subst h <;> cases sg <;>
+      simp only [Nat.reduceEqDiff, if_false, if_true, Bool.false_eq_true, Nat.reduceSub, Int.reducePow, Bool.and_eq_true,
+        decide_eq_true_eq] at hw <;> omega
+  rw [C20_text_int_conversion m cv n hn rest hs, Text.convInt_inWidth m cv n hw]
+
+/-- the values the seeded change c20_j breaks are inside the statement: 4000000000 and 0xdeadbeef are values of `unsigned int`,
+    a separator does not continue the number -/
+example : intInWidth .none .u 4000000000 = true ∧ intInWidth .none .x 3735928559 = true ∧ intInWidth .none .o (2 ^ 31) = true ∧
+    ispecSafe .none .u 4000000000 [32, 55] = true ∧ ispecSafe .none .x 3735928559 [44, 32] = true ∧
+    printIntSpec .none .x 3735928559 = [100, 101, 97, 100, 98, 101, 101, 102] ∧
+    scanIntSpec src .none .u ([52, 48, 48, 48, 48, 48, 48, 48, 48, 48] ++ [32, 55]) = .ok (4000000000, [32, 55]) := by
+  refine ⟨by decide, by decide, by decide, by decide, by decide, by decide +kernel, by decide +kernel⟩
+
+/-- **`%c`**: the byte printf writes for a value of `char` is read back as that value (`scan_from_with` stores it into a `char`
+    and hands `$I(tmp)` on) -/
+theorem C20_text_char_roundtrip (n : Int) (h1 : -128 ≤ n) (h2 : n ≤ 127) : charValue src (charByte n) = n := by
+  simp only [charValue, charByte, src, CelloGen.FileScan.charTy, CelloGen.FileScan.charFin, evalW, conv, sext, zext, if_true,
+    Int.reducePow, Nat.reduceSub]
+  omega
+
+/-- **on a File.**  An open readable File whose stream stands at `p` where the text `print_to` wrote for `n` under `%<m><cv>`
+    begins, followed by the literal run `sep` of the format and anything else that does not continue the number:
+    `scan_from(f, 0, "%<m><cv><sep>", x)` raises nothing, stores `n`, returns the length of the number plus the length of the literal
+    run, makes its `vfscanf` calls on the handle the File holds, and leaves the stream at or beyond the end of the number. -/
+theorem C20_text_int_roundtrip_on_file {l : Ref} {h : Handle} {k : Nat} {md : Mode} {p : Nat} {e : Bool} {c : List Cello.File.Byte}
+    (a : At l h k md p e c) (hk : Regular k) (hr : md.canRead = true) (m : IMod) (cv : IConv) (n : Int)
+    (hw : intInWidth m cv n = true) (sep rest : List Nat) (hc : toNats (c.drop p) = printIntSpec m cv n ++ rest)
+    (hs : ispecSafe m cv n rest = true) :
+    ∃ res, fileScanText src l (some h) (.int m cv) sep = some res ∧ res.f = some h ∧
+      res.out = .ok (.int n, (printIntSpec m cv n).length + sep.length) ∧
+      (∀ cl ∈ res.calls, cl = .on .vfscanf h) ∧
+      ∃ p' e', At res.lib h k md p' e' c ∧ p + (printIntSpec m cv n).length ≤ p' := by
+  have hrd := C20_text_int_roundtrip m cv n hw rest hs
+  have hlen : (printIntSpec m cv n ++ rest).length - rest.length = (printIntSpec m cv n).length := by simp
+  have hsc : ∃ r, scanCall src (.int m cv) sep (toNats (c.drop p)) (dfltOf (.int m cv)) = some r ∧ r.failed = false ∧
+      r.val = .int n ∧ r.ret = (printIntSpec m cv n).length + sep.length ∧ (printIntSpec m cv n).length ≤ r.consumed := by
+    rw [hc]
+    have hrs : readSpec src (.int m cv) (printIntSpec m cv n ++ rest) (dfltOf (.int m cv)) =
+        ⟨true, (printIntSpec m cv n).length, rest.isEmpty, .int n, 1, true⟩ := by
+      simp only [readSpec, readPlain, hrd, rdOfRes, hlen]
+    unfold scanCall
+    simp only [hrs, Bool.not_true, Bool.false_eq_true, if_false]
+    by_cases hsep : sep.isEmpty = true
+    · simp only [hsep, if_true]
+      exact ⟨_, rfl, rfl, rfl, by simp [List.isEmpty_iff.mp hsep], Nat.le_refl _⟩
+    · simp only [hsep]
+      exact ⟨_, rfl, rfl, rfl, rfl, Nat.le_add_right _ _⟩
+  obtain ⟨r, hr1, hr2, hr3, hr4, hr5⟩ := hsc
+  obtain ⟨res, h1, h2, h3, h4, h5⟩ := fileScanText_at a hk hr src (.int m cv) sep r hr1
+  refine ⟨res, h1, h2, ?_, ?_, _, _, h5, by omega⟩
+  · rw [h3, hr2, hr3, hr4]; rfl
+  · intro cl hcl; rw [h4] at hcl; exact (List.mem_replicate.mp hcl).2
+
+/-- the hypotheses of the theorem on a File are met on a concrete run of the model: `sopen "w+"`, `print_to(f, 0, "%u ", $I(4000000000))`
+    (two `vfprintf`), `sseek` to the start, `scan_from(f, 0, "%u ", x)`: 4000000000 again, position 11, end of the file seen -/
+example :
+    let l0 := (Cello.File.step Cello.File.refIO .fixed Ref.init none (.open 3 .wp)).lib
+    let fr := (printFrags (.int .none .u) (.int 4000000000) [32]).getD []
+    let p1 := Cello.File.step Cello.File.refIO .fixed l0 (some 1) (.print (fr.map toBytes))
+    let sk := Cello.File.step Cello.File.refIO .fixed p1.lib (some 1) (.seek 0 .set)
+    let sc := fileScanText src sk.lib (some 1) (.int .none .u) [32]
+    fr = [[52, 48, 48, 48, 48, 48, 48, 48, 48, 48], [32]] ∧ p1.out = .ok (.int 11) ∧
+      sc.map (fun r => (r.out, r.calls)) = some (.ok (.int 4000000000, 11), [.on .vfscanf 1, .on .vfscanf 1]) ∧
+      (sc.map (fun r => r.lib.streams)) = some [(1, ⟨3, .wp, 11, true, .rd⟩)] := by
+  refine ⟨by decide +kernel, by decide +kernel, by decide +kernel, by decide +kernel⟩
+
+/-- **the variant `tmp = t;` refuted** (seeded change c20_j: the cast of the unsigned conversions dropped): with the last arm's
+    expression replaced by the bare temporary the text `4000000000` is read back as −294967296 -/
+theorem C20_scan_sign_extending_arm_refuted :
+    let bad : Src := { src with arms := [⟨"strpbrk", [108, 106, 122, 116, 113], ⟨true, 64⟩, true, .t⟩, ⟨"else", [], ⟨true, 32⟩, false, .t⟩] }
+    scanIntSpec bad .none .u ([52, 48, 48, 48, 48, 48, 48, 48, 48, 48] ++ [32]) = .ok (-294967296, [32]) ∧
+    armOK bad ⟨"else", [], ⟨true, 32⟩, false, .t⟩ = false ∧
+    ¬ ArmConverts bad ⟨"else", [], ⟨true, 32⟩, false, .t⟩ := by
+  refine ⟨by decide +kernel, by decide +kernel, ?_⟩
+  intro h
+  have := h false (2 ^ 31) (by decide)
+  revert this
+  decide +kernel
+
+end Cello.FileText
